@@ -95,11 +95,15 @@ def do_op(utils, sem, o):
             return 'N'
         except Hang:
             return 'HANG'
+        except Exception as e:       # noqa: an exception the interface does not document
+            return 'E' + type(e).__name__
     try:
         sem.release(o[1], o[2])
         return 'O'
     except ValueError:
         return 'V'
+    except Exception as e:           # noqa: idem (e.g. a KeyError out of the bookkeeping)
+        return 'E' + type(e).__name__
 
 
 class Ghost:
@@ -634,8 +638,8 @@ def run_e2e(sc, sizes=(0, 3, 9, 14)):
     from s3transfer.futures import NonThreadedExecutor
     cfg = TransferConfig(multipart_threshold=4, multipart_chunksize=2, io_chunksize=1,
                          max_request_concurrency=3, max_submission_concurrency=2,
-                         max_request_queue_size=4, max_submission_queue_size=3, max_io_queue_size=3,
-                         max_in_memory_upload_chunks=2, max_in_memory_download_chunks=2,
+                         max_request_queue_size=4, max_submission_queue_size=5, max_io_queue_size=3,
+                         max_in_memory_upload_chunks=2, max_in_memory_download_chunks=6,   # all five capacities distinct
                          num_download_attempts=2)
     c = FakeS3()
     data = bytes(range(64))
